@@ -22,6 +22,7 @@ ASSUMPTIONS = ["FftIsDft: np.fft.fft(x, n) is the DFT of x zero-padded/truncated
 EXHAUSTIVE = True
 
 REL = Fraction(1, 10**9)
+MODEL_NMAX = {'quick': 512, 'thorough': 1024}   # the model's O(N^2) sum costs ~0.5 us per term
 
 
 # ------------------------------------------------------------------------------------------------
@@ -65,11 +66,26 @@ def expected_N(npts, mode):
 
 def cx_list(z):
     z = np.asarray(z, dtype=complex).reshape(-1)
-    out = []
-    for c in z:
-        out.append(float(c.real))
-        out.append(float(c.imag))
-    return out
+    out = np.empty(2 * len(z))
+    out[0::2] = z.real
+    out[1::2] = z.imag
+    return out.tolist()
+
+
+def cmp_floats(impl, model, scale, rel=1e-9):
+    """budget T on large arrays (NumPy instead of Fractions: the budget is 6 orders above the measured gaps) -> (message, gap)"""
+    a = np.asarray(impl, dtype=float)
+    b = np.asarray(model, dtype=float)
+    if a.shape != b.shape:
+        return f"length impl={a.size} model={b.size}", None
+    if a.size == 0:
+        return None, 0.0
+    d = np.abs(a - b)
+    i = int(np.argmax(d))
+    g = float(d[i]) / scale
+    if not (g <= rel):
+        return f"[{i}] impl={a[i]!r} model={b[i]!r} gap={float(d[i]):.3e} tol={rel * scale:.3e}", g
+    return None, g
 
 
 def w_cx(z):
@@ -149,7 +165,7 @@ def request_for(mode, label_kind, kw, v, dt):
 def cmp_spectrum(ctx, fn, outs, val, xscale):
     fas, freqs = val
     m = p_floats(outs[0])
-    msg, g = cmp_budget(cx_list(fas), m, REL, scale=max(float(np.max(np.abs(fas))) if len(fas) else 0.0, xscale, 1e-300))
+    msg, g = cmp_floats(cx_list(fas), m, max(float(np.max(np.abs(fas))) if len(fas) else 0.0, xscale, 1e-300))
     ctx.gap(fn, g)
     if msg:
         return 'fa_spectrum ' + msg
@@ -185,8 +201,8 @@ def one_config(ctx, kind, v, dt, mode, full=True):
         res = call_impl(impl_spectrum, v, dt, k, kw)
         results.append((label, res))
         fn = label.split('(')[0]
-        if N > 128 and 0 < ie < len(eps) - 1:
-            continue   # the O(N^2) model run is repeated for the first and the last entry point only; C06.d ties the others bit for bit
+        if (N > 128 and 0 < ie < len(eps) - 1) or (N > 256 and ie > 0) or N > MODEL_NMAX[ctx.tier]:
+            continue   # the O(N^2) model run is repeated for the first (and last) entry point only; C06.d ties the others bit for bit
         ctx.corr(fn, request_for(mode, k, kw, vf, dt), res,
                  lambda outs, val, fn=fn, xscale=xscale: cmp_spectrum(ctx, fn, outs, val, xscale), inputs=inputs)
     ctx.oracle('input array unchanged', np.array_equal(v, snap), inputs)
@@ -195,6 +211,10 @@ def one_config(ctx, kind, v, dt, mode, full=True):
         ctx.oracle('C06 spectrum is returned on the domain (npts >= 2, N >= 1)', False, inputs, detail=[(l, r[0], r[1] if r[0] == 'err' else None) for l, r in results])
         return
     label0, (fas, freqs) = ok_results[0]
+    finite = all(bool(np.all(np.isfinite(f)) and np.all(np.isfinite(g))) for _, (f, g) in ok_results)
+    ctx.oracle('C06 spectrum and frequencies are finite numbers', finite, inputs)
+    if not finite:
+        return
     P = N // 2
     # ---- C06.d object level == array level
     same = all(np.array_equal(f, fas) and np.array_equal(g, freqs) for _, (f, g) in ok_results[1:])
@@ -262,9 +282,10 @@ def one_config(ctx, kind, v, dt, mode, full=True):
                    detail={'N': N})
     # ---- C06.g inverse helper
     rf = call_impl(fq.fas2values, np.array(fas), dt)
-    ctx.corr('fas2values', f"fas2values|{w_float(dt)}|{w_cx(fas)}", rf,
-             lambda outs, val, sc=sc: _cmp_cx(ctx, 'fas2values', outs[0], val, max(float(np.max(np.abs(val))) if len(val) else 0.0, 1e-300)),
-             inputs={'fas': fas, 'dt': dt})
+    if N <= (256 if ctx.tier == 'quick' else 512):
+        ctx.corr('fas2values', f"fas2values|{w_float(dt)}|{w_cx(fas)}", rf,
+                 lambda outs, val, sc=sc: _cmp_cx(ctx, 'fas2values', outs[0], val, max(float(np.max(np.abs(val))) if len(val) else 0.0, 1e-300)),
+                 inputs={'fas': fas, 'dt': dt})
     if len(fas) >= 1:
         if rf[0] != 'ok':
             ctx.oracle('C06.g fas2values returns a series for a non-empty spectrum', False, inputs, detail=rf)
@@ -288,7 +309,7 @@ def one_config(ctx, kind, v, dt, mode, full=True):
 
 
 def _cmp_cx(ctx, fn, toks, val, scale):
-    msg, g = cmp_budget(cx_list(val), p_floats(toks), REL, scale=scale)
+    msg, g = cmp_floats(cx_list(val), p_floats(toks), scale)
     ctx.gap(fn, g)
     return msg
 
@@ -399,7 +420,7 @@ CORPUS_PERIOD = [
 def run(ctx):
     rng = ctx.rng
     quick = ctx.tier == 'quick'
-    nmax = 1024 if quick else 8192
+    nmax = 512 if quick else 4096
 
     # ---- transform-length rule against the model (integers, exact) ----------------------------------------------------
     for npts in list(range(1, 130)) + [255, 256, 257, 511, 512, 513, 1023, 1024, 1025, 4684, 2**20 - 1, 2**20, 2**20 + 1]:
@@ -455,7 +476,7 @@ def run(ctx):
     ctx.flush()
 
     # ---- random lengths, powers of two +-1 -------------------------------------------------------------------------------------
-    n_random = 40 if quick else 500
+    n_random = 40 if quick else 300
     hi = 300 if quick else 1500
     specials = [127, 128, 129, 255, 256, 257] + ([] if quick else [511, 512, 513, 1023, 1024, 1025])
     for i in range(n_random):
@@ -488,3 +509,26 @@ def run(ctx):
             ctx.oracle('C06.h on-bin sinusoid: the dominant period is N*dt/k for every phase',
                        all(abs(p - want) <= 1e-9 * want for p in vals), {'N': N, 'k': k0, 'dt': dt, 'npts': npts}, detail={'periods': vals, 'want': want})
     ctx.flush()
+
+
+def replay_case(ctx, payload):
+    """re-evaluates the recorded case on the current code; True iff no clause fails on it now"""
+    inp = payload['inputs']
+    sub = type(ctx)(ctx.prop, ctx.tier, ctx.seed)
+    if 'mode' in inp:
+        mode = tuple(inp['mode'])
+        v = np.array(inp['values'], dtype=int if 'int-dtype' in str(inp.get('kind')) else float)
+        one_config(sub, 'replay', v, inp['dt'], mode)
+    elif 'gen_fa_spectrum' in inp:
+        max_period_case(sub, 'replay', np.array(inp['values'], dtype=float), inp['dt'], inp['gen_fa_spectrum'] or None)
+    elif 'zeros' in inp:
+        one_config(sub, 'replay', np.array(inp['values'], dtype=float), inp['dt'], tuple(inp['mode']))
+    elif 'other' in inp:
+        one_config(sub, 'replay', np.array(inp['values'], dtype=float), inp['dt'], ('n', inp['N']))
+    else:
+        print('(clause evaluated on a generated family; re-run ./check C06 with the recorded seed)')
+        return False
+    sub.pending = []
+    for f in sub.oracle_failures:
+        print('still failing:', f['clause'], f['detail'])
+    return not sub.oracle_failures
